@@ -153,6 +153,10 @@ def run_block(family, p, acc):
                 B = K.expand(db)
                 check_kernels_only(A, B, acc, "blocked", layouts=("contiguous",), label=(da, db))
                 acc.case(("blocked", da["pat"], da["n"], db["pat"], db["n"]), nontrivial=True, outcome=("blocked", da["pat"], db["pat"]), sample=lambda: {"universe": "blocked", "A": da, "B": db})
+            for B in K.tiny_probes(A):
+                check_kernels_only(A, B, acc, "blocked", layouts=("contiguous",), label=(da, B))
+                check_kernels_only(B, A, acc, "blocked", layouts=("contiguous",), label=(B, da))
+                acc.case(("tiny", da["pat"], da["n"], tuple(B)), nontrivial=True, outcome=("tiny", len(set(A) & set(B))), sample=lambda: {"universe": "blocked", "A": da, "B": B})
             for db in descs[:: 7]:
                 for dc in descs[3:: 11]:
                     lst = [A, K.expand(db), K.expand(dc)]
